@@ -18,6 +18,9 @@ inductive RawOp where
   | add (ps : List Proposal) | remove (ps : List Proposal) | view (t : Nat) | adv (d : Nat)
   | enq (ps : List Proposal) | deq (t n : Nat) | outcome (sf : List (List Proposal))
   | tick (t n : Nat) (ok : Bool) (sleep : Nat)
+  | obs (first : Bool) (sf : List (List Proposal))
+    -- plugin level: one `Observation` call whose PreviousOutcome carries `sf` (none when `first`);
+    -- its result is the proposals of the observation = both pending sets as the build hooks view them
 
 def rawOp (j : Json) : R RawOp := do
   match ← strF j "op" with
@@ -28,6 +31,7 @@ def rawOp (j : Json) : R RawOp := do
   | "enq" => pure (.enq (← listF proposal j "ps"))
   | "deq" => pure (.deq (← natF j "t") (← natF j "n"))
   | "outcome" => pure (.outcome (← listF (listOf proposal) j "surfaced"))
+  | "obs" => pure (.obs (← asBool (fieldD j "first" (.bool false))) (← listOf (listOf proposal) (fieldD j "surfaced" .null)))
   | "start" => pure (.adv 0)   -- a final flow is started: nothing happens in the stores
   | "tick" =>
     -- builder script of the tick: fail < 0 = no error; sleep = how long BuildPayloads takes
@@ -94,6 +98,9 @@ structure Walk where
   seen : List (String × Nat) := []   -- (work id, block) handed so far
   busy : List (Nat × Nat) := []      -- (flow type, time until which its BuildPayloads call runs)
   nontrivial : Bool := false
+  outs : List (Option (List Proposal)) := []   -- reversed, aligned with ops
+  auxs : List (Option (List Proposal)) := []   -- reversed, aligned with ops
+  lastSf : Option (List (List Proposal)) := none  -- previous outcome of the last Observation call
 
 def Walk.note (w : Walk) (i : Nat) (what : String) (want got : List Proposal) : Walk :=
   if want = got then w
@@ -189,11 +196,48 @@ def walkStep (tg : String → Nat) (w : Walk) (i : Nat) (rop : RawOp) (out aux :
              busy := if sleep > 0 && !deqd.isEmpty then (t, st.now + sleep) :: w.busy else w.busy,
              nontrivial := w.nontrivial || !want.isEmpty }
 
+  | .obs _ _ => w   -- expanded by walkRaw
+
+def pushStep (tg : String → Nat) (w : Walk) (i : Nat) (rop : RawOp) (out aux : Option (List Proposal)) : Walk :=
+  let w' := walkStep tg w i rop out aux
+  { w' with outs := out :: w'.outs, auxs := aux :: w'.auxs }
+
+def insertByWid (p : Proposal) : List Proposal → List Proposal
+  | [] => [p]
+  | x :: xs => if p.workID ≤ x.workID then p :: x :: xs else x :: insertByWid p xs
+
+/-- the observation's proposals were shuffled: compare per pending set, in key order -/
+def sortByWid (l : List Proposal) : List Proposal := l.foldr insertByWid []
+
+def walkRaw (tg : String → Nat) (w : Walk) (i : Nat) (rop : RawOp) (out aux : Option (List Proposal)) : Walk :=
+  match rop with
+  | .obs first sf =>
+    -- Observation = pre-build hooks on the previous outcome (remove-from-metadata, add-to-proposalq),
+    -- then the build hooks view the log and the conditional pending set
+    let got := out.getD []
+    let logs := sortByWid (got.filter (fun p => tg p.upkeepID == logT))
+    let conds := sortByWid (got.filter (fun p => tg p.upkeepID == condT))
+    let other := got.filter (fun p => tg p.upkeepID != logT && tg p.upkeepID != condT)
+    let again := !first && w.lastSf == some sf
+    let st := w.st
+    let readded := !first && sf.flatten.any (fun p =>
+      (tg p.upkeepID == logT && (st.ms.log.values.get p.workID).isSome) ||
+      (tg p.upkeepID == condT && (st.ms.cond.values.get p.workID).isSome))
+    let w := if first then w else pushStep tg w i (.outcome sf) none none
+    let w := pushStep tg w i (.view logT) (some logs) none
+    let w := pushStep tg w i (.view condT) (some conds) none
+    let w := w.note i "observation: proposals of a type the store does not keep" [] other
+    { w with tags := w.tags ++ ["observation"] ++ (if first then ["observation-first-round"] else []) ++
+                (if again then ["observation-same-previous-outcome-again"] else []) ++
+                (if again && readded then ["same-outcome-again-must-remove-readded-proposal"] else []),
+             lastSf := if first then none else some sf }
+  | _ => pushStep tg w i rop out aux
+
 def walk (tg : String → Nat) : List RawOp → List (Option (List Proposal)) → List (Option (List Proposal)) → Nat →
     Walk → Walk
   | [], _, _, _, w => w
   | rop :: rops, outs, auxs, i, w =>
-    walk tg rops outs.tail auxs.tail (i + 1) (walkStep tg w i rop outs.head?.join auxs.head?.join)
+    walk tg rops outs.tail auxs.tail (i + 1) (walkRaw tg w i rop outs.head?.join auxs.head?.join)
 
 /-- the observations with every plain `Dequeue` result replaced by what its holder reads later -/
 def retainedOuts : List Op → List (Option (List Proposal)) → List (Option (List Proposal)) →
@@ -204,9 +248,57 @@ def retainedOuts : List Op → List (Option (List Proposal)) → List (Option (L
      | .deq _ _ _, some ret => some ret
      | _, _ => outs.head?.join) :: retainedOuts ops outs.tail auxs.tail
 
+structure ConcView where
+  rds : Nat
+  rse : Nat
+  ads : Nat
+  ase : Nat
+  out : List Proposal
+
+/-- mode "stress": one store, `init` pending; one goroutine removes `remove` one by one, one adds `add`
+one by one, one views repeatedly; afterwards a final view.  The process may not abort. -/
+def handleStress (input impl : Json) (tg : String → Nat) : R Reply := do
+  let st ← field input "stress"
+  let t ← natF st "t"
+  let ini ← listF proposal st "init"
+  let rem ← listF proposal st "remove"
+  let add ← listF proposal st "add"
+  let exit ← strF impl "exit"
+  let crash := match (fieldD impl "crash" (.str "")) with | .str c => c | _ => ""
+  let final ← outOf (fieldD impl "final" .null)
+  let views ← listOf (fun j => do
+    pure ({ rds := ← natF j "rds", rse := ← natF j "rse", ads := ← natF j "ads", ase := ← natF j "ase",
+            out := ← listF proposal j "out" } : ConcView)) (fieldD impl "views" .null)
+  let ops : List Op := [.add ini, .remove rem, .add add, .view t]
+  let mouts := run tg ops (St.init 0)
+  let want := (mouts.getLast?.join).getD []
+  let ok := exit == "ok"
+  let got := final.getD []
+  let outs : List (Option (List Proposal)) := [none, none, none, some got]
+  let badView := views.find? (fun v =>
+    !concViewOk (concRequired ini rem add v.rse v.ads) (concAllowed ini rem add v.rds v.ase) v.out)
+  let si := ok && final.isSome && spec tg 0 ops outs && badView.isNone
+  let agree := ok && final.isSome && got == want && badView.isNone
+  let fail :=
+    if si then ""
+    else if !ok || final.isNone then
+      s!"metadata store: the process aborted during concurrent RemoveProposals / AddProposals / ViewProposals ({exit}: {crash})"
+    else match badView with
+      | some v => explainConcView (concRequired ini rem add v.rse v.ads) (concAllowed ini rem add v.rds v.ase) v.out
+      | none => "after the concurrent phase: " ++ explain tg 0 ops outs
+  pure { agree := agree, specModel := spec tg 0 ops mouts, specImpl := si,
+         diff := if agree then "" else if !ok then s!"child process: {exit} {crash}"
+                 else if got != want then s!"final view: model has {want.length} proposals, impl {got.length}" else "concurrent view outside its window",
+         fail := fail, nontrivial := true,
+         tags := ["stress", if t == logT then "stress-log" else "stress-conditional",
+                  s!"stress-views-{views.length}"] ++
+                 (if views.any (fun v => v.rds < v.rse || v.ads < v.ase) then ["stress-view-overlaps-remove-or-add"] else []) }
+
 def handle (input impl : Json) : R Reply := do
   let table ← listF (fun j => do pure ((← strF j "uid"), (← natF j "t"))) input "types"
   let tg : String → Nat := fun uid => (table.lookup uid).getD 255
+  if (fieldD input "mode" (.str "")) == .str "stress" then return ← handleStress input impl tg
+  let implErr := match fieldD impl "err" (.str "") with | .str e => e | _ => ""
   let rops ← listF rawOp input "ops"
   let outs ← listF outOf impl "outs"
   if outs.length ≠ rops.length then throw s!"outs has {outs.length} entries for {rops.length} ops"
@@ -215,15 +307,17 @@ def handle (input impl : Json) : R Reply := do
   let extra ← asNat (fieldD impl "extra" (.num 0))
   let w := walk tg rops outs auxs 0 { st := St.init 0 }
   let ops := w.ops.reverse
+  let outs := w.outs.reverse
+  let auxs := w.auxs.reverse
   let mouts := run tg ops (St.init 0)
   let sm := spec tg 0 ops mouts
   let si1 := spec tg 0 ops outs
   let routs := retainedOuts ops outs auxs
   let si2 := spec tg 0 ops routs
   let si := si1 && si2
-  let agree := w.agree && extra == 0
+  let agree := w.agree && extra == 0 && implErr == ""
   pure { agree := agree, specModel := sm, specImpl := si,
-         diff := if !w.agree then w.diff else if extra != 0 then s!"{extra} undeclared final-flow ticks / runner calls" else "",
+         diff := if implErr != "" then s!"implementation error: {implErr}" else if !w.agree then w.diff else if extra != 0 then s!"{extra} undeclared final-flow ticks / runner calls" else "",
          fail := if si then "" else if !si1 then explain tg 0 ops outs
                  else "as held by the caller after later Dequeue calls: " ++ explain tg 0 ops routs,
          nontrivial := w.nontrivial, tags := dedup w.tags }
